@@ -19,7 +19,7 @@
 //!
 //! Oracle (independent of the Lean model): whatever arrives on the queue must (1) exist,
 //! (2) be link-free (no component is a symlink: it *is* the resolved location), (3) start, by
-//! components, with the real `canonicalize(update_path)`, (4) be unique, (5) be answered 200 when
+//! components, with the real `canonicalize(update_path)`, (4) be unique, (5) be answered 2xx when
 //! the consumer does not report an error; nothing enqueued ⇒ the status is 400; no `update_path`
 //! ⇒ 400 and nothing enqueued; never a panic.
 use std::collections::BTreeMap;
@@ -270,8 +270,8 @@ fn run_case(rec: &mut Recorder, scratch: &mut Scratch, layout: &Layout, c: &Case
                 }
             }
         }
-        if matches!(c.reply, Reply::Ok | Reply::Silent) && obs.status != Some(200) && obs.panicked.is_none() {
-            fail("C20-enqueue-not-answered-200", format!("{:?}", obs.status));
+        if matches!(c.reply, Reply::Ok | Reply::Silent) && !obs.status.map(|s| (200..300).contains(&s)).unwrap_or(false) && obs.panicked.is_none() {
+            fail("C20-enqueue-not-answered-2xx", format!("{:?}", obs.status));
         }
     }
     if obs.enq.is_empty() && obs.panicked.is_none() {
@@ -331,6 +331,19 @@ fn layout0() -> Layout {
     Layout(e)
 }
 
+/// ELOOP threshold: a chain `c00 -> c01 -> … -> c43 -> a.mrt` (glibc expands at most 40 links).
+fn layout1() -> Layout {
+    let mut e = vec![Entry::Dir(v("/upd")), Entry::File(v("/upd/a.mrt")), Entry::Dir(v("/upd/dd")), Entry::File(v("/upd/dd/z"))];
+    for i in 0..44 {
+        let t = if i == 43 { "a.mrt".to_string() } else { format!("c{:02}", i + 1) };
+        e.push(Entry::Link(v(&format!("/upd/c{:02}", i)), t.into_bytes()));
+    }
+    // a link that grows: g -> g/x (never resolves), and one that expands to many components
+    e.push(Entry::Link(v("/upd/g"), b"g/x".to_vec()));
+    e.push(Entry::Link(v("/upd/dd/back"), b"../dd".to_vec()));
+    Layout(e)
+}
+
 const FILES0: &[&str] = &[
     "a.mrt", "sub/b.mrt", "sub/deep/c.mrt", "./a.mrt", "sub/../a.mrt", "sub//b.mrt", "sub/./b.mrt", "sub/deep/../../a.mrt",
     "", ".", "..", "sub", "sub/", "sub/..", "sub/deep/../..", "sub/deep/../../..",
@@ -354,6 +367,8 @@ fn is_unreserved(b: u8) -> bool { b.is_ascii_alphanumeric() || b"-._~/".contains
 
 /// Encode a parameter value for the query string in one of several styles.
 fn encode(val: &[u8], style: u64) -> String {
+    // the virtual root token must stay literal (it is replaced textually by the real root)
+    let style = if val.windows(VROOT.len()).any(|w| w == VROOT) && ![0, 3, 5].contains(&style) { 0 } else { style };
     let pct = |b: u8, upper: bool| if upper { format!("%{:02X}", b) } else { format!("%{:02x}", b) };
     let mut s = String::new();
     match style {
@@ -428,7 +443,7 @@ fn mk_case(method: &str, path: &str, query: Option<&str>, upd: Option<Vec<u8>>, 
 fn upd0(u: Option<&str>) -> Option<Vec<u8>> { u.map(|s| if s.is_empty() { vec![] } else { v(s) }) }
 
 /// A random tree below `/@R@` and things to ask about it.
-struct RandTree { layout: Layout, dirs: Vec<Vec<u8>>, names: Vec<String> }
+struct RandTree { layout: Layout, dirs: Vec<Vec<u8>>, names: Vec<String>, all: Vec<String> }
 
 fn rand_tree(rng: &mut Rng) -> RandTree {
     const NAMES: &[&str] = &["a", "b", "c", "d.mrt", "e", "up", "x y"];
@@ -469,10 +484,12 @@ fn rand_tree(rng: &mut Rng) -> RandTree {
             links.push(p);
         }
     }
-    let mut cand_dirs: Vec<Vec<u8>> = dirs.iter().filter(|d| !d.is_empty()).map(|d| v(d)).collect();
+    // candidates for update_path: directories (three times each) and links (whatever they point to)
+    let mut cand_dirs: Vec<Vec<u8>> = vec![];
+    for _ in 0..3 { cand_dirs.extend(dirs.iter().filter(|d| !d.is_empty()).map(|d| v(d))); }
     cand_dirs.extend(links.iter().map(|l| v(l)));
     if cand_dirs.is_empty() { cand_dirs.push(v("")); }
-    RandTree { layout: Layout(entries), dirs: cand_dirs, names: NAMES.iter().map(|s| s.to_string()).collect() }
+    RandTree { layout: Layout(entries), dirs: cand_dirs, names: NAMES.iter().map(|s| s.to_string()).collect(), all: taken }
 }
 
 fn rand_file(rng: &mut Rng, t: &RandTree) -> Vec<u8> {
@@ -484,6 +501,26 @@ fn rand_file(rng: &mut Rng, t: &RandTree) -> Vec<u8> {
     let mut s = parts.join("/").into_bytes();
     if rng.chance(1, 25) { s.insert(0, b'/'); }
     if rng.chance(1, 40) { s.push(0); }
+    s
+}
+
+/// A `file` value aimed at an existing entry: the textual relative path from `upd` to it,
+/// decorated with redundant `.`, `x/..` and separators.
+fn guided_file(rng: &mut Rng, t: &RandTree, upd: &[u8]) -> Vec<u8> {
+    let target = rng.pick(&t.all[..]).clone();
+    let from: Vec<&[u8]> = upd[VROOT.len().min(upd.len())..].split(|b| *b == b'/').filter(|c| !c.is_empty() && *c != b".").collect();
+    let to: Vec<&[u8]> = target.as_bytes().split(|b| *b == b'/').filter(|c| !c.is_empty()).collect();
+    let common = from.iter().zip(to.iter()).take_while(|(a, b)| a == b).count();
+    let mut parts: Vec<Vec<u8>> = vec![];
+    for _ in common..from.len() { parts.push(b"..".to_vec()); }
+    for c in &to[common..] { parts.push(c.to_vec()); }
+    let mut out: Vec<Vec<u8>> = vec![];
+    for p in parts {
+        match rng.below(12) { 0 => out.push(b".".to_vec()), 1 => out.push(vec![]), 2 => { out.push(rng.pick(&t.names[..]).clone().into_bytes()); out.push(b"..".to_vec()); } _ => {} }
+        out.push(p);
+    }
+    let mut s = out.join(&b"/"[..]);
+    match rng.below(12) { 0 => s.extend_from_slice(b"/"), 1 => s.extend_from_slice(b"/."), 2 => s.extend_from_slice(b"/.."), _ => {} }
     s
 }
 
@@ -536,6 +573,15 @@ fn main() {
             run_case(&mut rec, &mut scratch, &l0, &mk_case("GET", "/mrt/u1/queue", q.as_deref(), upd0(Some("/upd")), true, Reply::Ok));
         }
     }
+    // 2b. symlink-count limit
+    let l1 = layout1();
+    for f in ["c00", "c02", "c03", "c04", "c05", "c10", "c43", "c04/", "c04/.", "c04/x", "g", "g/y",
+              "dd/back/back/back/back/back/back/back/back/back/back/back/back/back/back/back/back/back/back/back/back/z",
+              "dd/back/back/back/back/back/back/back/back/back/back/back/back/back/back/back/back/back/back/back/back/back/back/back/back/back/back/back/back/back/back/back/back/back/back/back/back/back/back/back/back/z",
+              "dd/back/back/back/back/back/back/back/back/back/back/back/back/back/back/back/back/back/back/back/back/back/back/back/back/back/back/back/back/back/back/back/back/back/back/back/back/back/back/back/back/back/z"] {
+        let q = format!("file={}", f);
+        run_case(&mut rec, &mut scratch, &l1, &mk_case("GET", "/mrt/u1/queue", Some(&q), upd0(Some("/upd")), true, Reply::Ok));
+    }
     // 3. malformed stream
     for q in MALFORMED {
         for u in [Some("/upd"), Some("/updlink"), None, Some("/upd/sub")] {
@@ -563,20 +609,20 @@ fn main() {
         }
     }
     // 6. random trees, random walks
-    let (ntrees, nper) = if args.thorough { (400, 120) } else { (40, 60) };
+    let (ntrees, nper) = if args.thorough { (1000, 120) } else { (120, 80) };
     for _ in 0..ntrees {
         let t = rand_tree(&mut rng);
         for _ in 0..nper {
-            let f = rand_file(&mut rng, &t);
-            let style = rng.below(6);
-            let k = if rng.chance(3, 4) { 0 } else { rng.below(22) };
-            let w = encode(&rand_file(&mut rng, &t), rng.below(6));
-            let q = shape(&encode(&f, style), &w, k);
             let upd = if rng.chance(1, 20) { None } else {
                 let mut d = rng.pick(&t.dirs).clone();
                 match rng.below(8) { 0 => d.extend_from_slice(b"/"), 1 => d.extend_from_slice(b"/.."), 2 => d.extend_from_slice(b"/."), _ => {} }
                 Some(d)
             };
+            let f = match &upd { Some(u) if rng.chance(3, 5) => guided_file(&mut rng, &t, u), _ => rand_file(&mut rng, &t) };
+            let style = rng.below(6);
+            let k = if rng.chance(3, 4) { 0 } else { rng.below(22) };
+            let w = encode(&rand_file(&mut rng, &t), rng.below(6));
+            let q = shape(&encode(&f, style), &w, k);
             let reply = *rng.pick(&[Reply::Ok, Reply::Ok, Reply::Ok, Reply::Err, Reply::Drop, Reply::Silent]);
             let (m, p) = if rng.chance(1, 15) { *rng.pick(PATHS) } else { ("GET", "/mrt/u1/queue") };
             run_case(&mut rec, &mut scratch, &t.layout, &mk_case(m, p, q.as_deref(), upd, !rng.chance(1, 15), reply));
